@@ -270,3 +270,16 @@ pub fn check_document(doc: &J, declared_externals: Option<&BTreeSet<String>>) ->
     }
     out
 }
+
+/// Path text of every container that directly holds the shuffle command ("seq").
+pub fn shuffle_container_paths(doc: &J) -> Vec<String> {
+    let Some(root) = doc.get("root").filter(|r| r.is_array()) else {
+        return vec![];
+    };
+    let tree = Tree::build(root);
+    tree.nodes
+        .iter()
+        .filter(|n| n.v.as_array().map(|a| a.iter().any(|e| e.as_str() == Some("seq"))).unwrap_or(false))
+        .map(|n| n.path.clone())
+        .collect()
+}
